@@ -116,8 +116,9 @@ func allConfigs() []config {
 	return out
 }
 
-// pickConfigs: thorough = the whole grid; quick = the default plus n seeded ones
-// (always at least one with minify-whitespace and one with charset utf8).
+// pickConfigs: thorough = the whole grid; quick = the default (ascii, pretty, no line limit, format preserved), its
+// complement in every two-valued dimension (utf8, minify-whitespace, line limit 20) under a seeded converting format,
+// and n-1 more seeded ones: every value of charset / minify-whitespace / line-limit occurs in every run.
 func pickConfigs(r *core.Run, n int) []config {
 	all := allConfigs()
 	if r.Thorough() {
@@ -125,15 +126,13 @@ func pickConfigs(r *core.Run, n int) []config {
 	}
 	out := []config{defaultConfig}
 	seen := map[string]bool{defaultConfig.Name(): true}
-	var mws, rest []config
+	var compl []config
 	for _, c := range all {
-		if c.MinifyWS {
-			mws = append(mws, c)
-		} else {
-			rest = append(rest, c)
+		if c.Charset == "utf8" && c.MinifyWS && c.LineLimit == 20 && c.Format != "preserve" {
+			compl = append(compl, c)
 		}
 	}
-	c := mws[r.Rand.Intn(len(mws))]
+	c := compl[r.Rand.Intn(len(compl))]
 	out = append(out, c)
 	seen[c.Name()] = true
 	for len(out) < n+1 {
@@ -143,7 +142,6 @@ func pickConfigs(r *core.Run, n int) []config {
 			out = append(out, c)
 		}
 	}
-	_ = rest
 	return out
 }
 
@@ -254,11 +252,16 @@ type tlcJob struct {
 	shard  int
 	shards int
 	parts  int
+	keep   int // 1 = everything; n = the fixed covering part + every n-th case of the bulk part (seeded offset)
 }
 
 func (j tlcJob) cfgText() string {
-	return fmt.Sprintf("SPECIFICATION Spec\nCONSTANTS\n  Family = \"%s\"\n  Size = %d\n  NParts = %d\n  Shard = %d\n  NShards = %d\nINVARIANTS\n  AllRoundTrips Inhabited\nCHECK_DEADLOCK FALSE\n",
-		j.family, j.size, j.parts, j.shard, j.shards)
+	keep := j.keep
+	if keep < 1 {
+		keep = 1
+	}
+	return fmt.Sprintf("SPECIFICATION Spec\nCONSTANTS\n  Family = \"%s\"\n  Size = %d\n  NParts = %d\n  Keep = %d\n  Seed = %d\n  Shard = %d\n  NShards = %d\nINVARIANTS\n  AllRoundTrips Inhabited\nCHECK_DEADLOCK FALSE\n",
+		j.family, j.size, j.parts, keep, j.seed%1000, j.shard, j.shards)
 }
 
 // genTrees runs the JsSyntaxGen configurations (several JVMs side by side) and returns the exported cases
@@ -267,7 +270,8 @@ func genTrees(r *core.Run, jobs []tlcJob, workersEach int) []treeCase {
 	var cases []treeCase
 	missing := map[string]map[string]int{} // family -> label -> number of shards that miss it
 	shardsOf := map[string]int{}
-	core.Parallel(len(jobs), 5, func(i int) {
+	// the two chains run side by side: at most 3 JVMs each in the thorough tier (6 GB heaps)
+	core.Parallel(len(jobs), r.Pick(5, 3), func(i int) {
 		j := jobs[i]
 		base := fmt.Sprintf("JsSyntaxGen.%s%d.cfg", j.family, j.size)
 		if j.family == "rand" {
@@ -478,7 +482,7 @@ func (p *prober) run(batch, procs int) bool {
 var jsKeywords = map[string]bool{"typeof": true, "void": true, "delete": true, "new": true, "await": true, "yield": true, "in": true, "instanceof": true,
 	"function": true, "class": true, "this": true, "if": true, "else": true, "for": true, "while": true, "do": true, "switch": true, "case": true,
 	"return": true, "throw": true, "var": true, "const": true, "export": true, "default": true, "import": true, "with": true, "extends": true, "of": true,
-	"k": true, "m": true, "f": true, "w": true, "C": true, "l": true, "v": true, "break": true, "next": true}
+	"k": true, "m": true, "f": true, "w": true, "C": true, "l": true, "v": true, "u": true, "break": true, "next": true}
 
 func isIdent(t string) bool {
 	if t == "" {
@@ -534,6 +538,21 @@ func dropExports(tr []string) []string {
 	return out
 }
 
+// A function / class leaf that meets an operator which converts it to a string (`class{} + y`, `function(){} in y`)
+// makes its own source text observable; the property excludes that (Function.prototype.toString), and esbuild only
+// re-formats the white space of such a leaf: trace lines are compared modulo white space.
+func squeeze(l string) string {
+	return strings.Join(strings.Fields(strings.ReplaceAll(l, "\\n", " ")), "")
+}
+
+func squeezeAll(tr []string) []string {
+	out := make([]string, len(tr))
+	for i, l := range tr {
+		out[i] = squeeze(l)
+	}
+	return out
+}
+
 func sameTraces(a, b [][]string, ignoreExports bool) (bool, string) {
 	if len(a) != len(b) {
 		return false, "different number of valuations"
@@ -543,7 +562,7 @@ func sameTraces(a, b [][]string, ignoreExports bool) (bool, string) {
 		if ignoreExports {
 			x, y = dropExports(x), dropExports(y)
 		}
-		if strings.Join(x, "\n") != strings.Join(y, "\n") {
+		if strings.Join(squeezeAll(x), "\n") != strings.Join(squeezeAll(y), "\n") {
 			return false, fmt.Sprintf("valuation %d: input trace %q, output trace %q", v, x, y)
 		}
 	}
@@ -730,15 +749,32 @@ func runTrees(r *core.Run, cases []treeCase, cfgs []config) {
 	mergeCount(r, "tree_cases_per_skeleton", perSkel)
 }
 
+// mergeCount accumulates per-label counts; the stages run side by side, so the totals are kept here and
+// written to the evidence once by flushCounts
+var (
+	countMu sync.Mutex
+	counts  = map[string]map[string]int{}
+)
+
 func mergeCount(r *core.Run, key string, m map[string]int) {
-	cur, _ := r.Coverage[key].(map[string]int)
+	countMu.Lock()
+	defer countMu.Unlock()
+	cur := counts[key]
 	if cur == nil {
 		cur = map[string]int{}
+		counts[key] = cur
 	}
 	for k, v := range m {
 		cur[k] += v
 	}
-	r.Set(key, cur)
+}
+
+func flushCounts(r *core.Run) {
+	countMu.Lock()
+	defer countMu.Unlock()
+	for k, v := range counts {
+		r.Set(k, v)
+	}
 }
 
 // ---------------------------------------------------------------------------
@@ -753,8 +789,9 @@ func replay(r *core.Run) {
 	var rec struct {
 		Key    map[string]interface{} `json:"key"`
 		Detail struct {
-			Case   json.RawMessage `json:"case"`
-			Config config          `json:"config"`
+			Case     json.RawMessage `json:"case"`
+			Config   config          `json:"config"`
+			Contexts []litCtx        `json:"contexts"`
 		} `json:"detail"`
 	}
 	if err := json.Unmarshal(data, &rec); err != nil {
@@ -770,6 +807,10 @@ func replay(r *core.Run) {
 	case "literal":
 		var c litCase
 		json.Unmarshal(rec.Detail.Case, &c)
+		for _, cx := range rec.Detail.Contexts {
+			litContexts[cx.Name] = cx
+			c.Ctxs = []string{cx.Name} // the one context of the recorded violation
+		}
 		runLiterals(r, []litCase{c}, cfgs)
 	case "jsx":
 		var c jsxCase
@@ -779,6 +820,7 @@ func replay(r *core.Run) {
 	default:
 		r.Infra("unknown replay kind %v", rec.Key["kind"])
 	}
+	flushCounts(r)
 }
 
 func Run(r *core.Run) {
@@ -786,7 +828,7 @@ func Run(r *core.Run) {
 		replay(r)
 		return
 	}
-	r.Set("rule", "cases are enumerated by TLC from spec/JsSyntax*.tla: expression trees (one operator per precedence level / associativity class, depth<=2 exhaustive), left/right spines to depth 4-5 for the printer's downward flags, statement skeletons x depth<=1 trees, string/template/regexp bodies over code-unit classes x spellings x quote kinds, numeric lexical forms x magnitude classes, JSX elements; each case x configuration goes through the real api.Transform. A tree case is non-trivial iff it carries >= 1 hazard label (a required parenthesis, a start-of-statement/arrow-body/for-init restriction or a token-gluing hazard); a literal case iff it contains a non-letter code-unit class (numbers: a non-plain-decimal form)")
+	r.Set("rule", "cases are enumerated by TLC from spec/JsSyntax*.tla / JsLiteral*.tla / JsJsx.tla: expression trees (one operator per precedence level / associativity class, depth<=2), left spines over 22 left-edge operator classes, family mix (restricted leaves under chains of 2-3 forwarding operators in every kind of for-init and statement start), statement skeletons x depth<=1 trees, string/template bodies over 52 code-unit classes x 7 spellings x 4 quote kinds (every ordered class pair, constructive >=3-unit hazard families) in the spec's program contexts (expression, key, strict code, both-quotes, line-wrap, directive, template head/tail), regexp atoms, numeric lexical forms x magnitude classes, JSX elements; quick = the fixed label-covering part of each family + a slice of its bulk cut by VERIF_SEED, thorough = all; each case x configuration goes through the real api.Transform. A tree case is non-trivial iff it carries >= 1 hazard label (a required parenthesis, a start-of-statement/arrow-body/for-init restriction or a token-gluing hazard); a literal case iff it contains a non-letter code-unit class or a branch label (numbers: a non-plain-decimal form)")
 	r.Assume("Node 20 V8 and Node's internal acorn 8.16 are the reference for validity, tree shape and literal values; the spec's prediction is cross-validated against them on every INPUT (disagreement = SPEC-DRIFT, case excluded)")
 	r.Assume("numeric value equality is judged by V8 on the enumerated lexical forms x magnitude classes; float64 bit patterns outside that grid and code-unit VALUES beyond the class representatives are not reached (DESIGN.md section 6)")
 	r.Assume("never minify-syntax / minify-identifiers, never lowering (Target ESNext)")
@@ -801,22 +843,23 @@ func Run(r *core.Run) {
 	var jobs []tlcJob
 	if r.Thorough() {
 		for s := 0; s < 4; s++ {
-			jobs = append(jobs, tlcJob{family: "expr", size: 3, shard: s, shards: 4, parts: 8})
+			jobs = append(jobs, tlcJob{family: "expr", size: 3, shard: s, shards: 4, parts: 8, keep: 1})
 		}
 		for s := 0; s < 2; s++ {
-			jobs = append(jobs, tlcJob{family: "spine", size: 3, shard: s, shards: 2, parts: 8})
+			jobs = append(jobs, tlcJob{family: "spine", size: 3, shard: s, shards: 2, parts: 8, keep: 30, seed: r.Seed})
+			jobs = append(jobs, tlcJob{family: "mix", size: 3, shard: s, shards: 2, parts: 8, keep: 16, seed: r.Seed})
 		}
-		jobs = append(jobs, tlcJob{family: "skel", size: 2, shard: 0, shards: 1, parts: 16})
+		jobs = append(jobs, tlcJob{family: "skel", size: 2, shard: 0, shards: 1, parts: 16, keep: 1})
 		// random compositions of the same node classes to depth 3 (seeded)
 		for k := int64(0); k < 3; k++ {
 			jobs = append(jobs, tlcJob{family: "rand", size: 6000, shard: 0, shards: 1, parts: 8, seed: r.Seed*100 + k + 1})
 		}
 	} else {
-		for s := 0; s < 3; s++ {
-			jobs = append(jobs, tlcJob{family: "expr", size: 2, shard: s, shards: 3, parts: 8})
-		}
-		jobs = append(jobs, tlcJob{family: "spine", size: 2, shard: 0, shards: 1, parts: 8})
-		jobs = append(jobs, tlcJob{family: "skel", size: 1, shard: 0, shards: 1, parts: 8})
+		// quick: the fixed (label-covering) part of every family plus a seeded 1/keep slice of its bulk
+		jobs = append(jobs, tlcJob{family: "expr", size: 2, shard: 0, shards: 1, parts: 8, keep: 16, seed: r.Seed})
+		jobs = append(jobs, tlcJob{family: "spine", size: 2, shard: 0, shards: 1, parts: 8, keep: 30, seed: r.Seed})
+		jobs = append(jobs, tlcJob{family: "mix", size: 2, shard: 0, shards: 1, parts: 8, keep: 80, seed: r.Seed})
+		jobs = append(jobs, tlcJob{family: "skel", size: 1, shard: 0, shards: 1, parts: 8, keep: 8, seed: r.Seed})
 	}
 	// developer aid: C01_FAMILIES=expr,spine,skel,lit restricts the families (never set by bin/check users)
 	if only := os.Getenv("C01_FAMILIES"); only != "" {
@@ -829,33 +872,43 @@ func Run(r *core.Run) {
 		jobs = keep
 		r.Assume("developer run restricted to families " + only)
 	}
-	// the literal generators run side by side with the tree generators
+	// The stages run side by side: literals and JSX are replayed as soon as their generators finish, the tree
+	// families in two chains (the depth-2 expression shards; spines / forwarding chains / skeletons).
+	var wg sync.WaitGroup
+	stage := func(f func()) {
+		wg.Add(1)
+		go func() {
+			defer wg.Done()
+			f()
+		}()
+	}
 	doLit := os.Getenv("C01_FAMILIES") == "" || strings.Contains(","+os.Getenv("C01_FAMILIES")+",", ",lit,")
-	litCh := make(chan []litCase, 1)
-	go func() {
-		if doLit {
-			litCh <- genLiterals(r)
-		} else {
-			litCh <- nil
-		}
-	}()
 	doJSX := os.Getenv("C01_FAMILIES") == "" || strings.Contains(","+os.Getenv("C01_FAMILIES")+",", ",jsx,")
-	jsxCh := make(chan []jsxCase, 1)
-	go func() {
-		if doJSX {
-			jsxCh <- genJSX(r)
-		} else {
-			jsxCh <- nil
-		}
-	}()
-	trees := genTrees(r, jobs, 2)
-	r.Logf("TLC exported %d tree cases", len(trees))
-	runTrees(r, trees, cfgs)
-	lits := <-litCh
 	if doLit {
-		runLiterals(r, lits, cfgs)
+		stage(func() { runLiterals(r, genLiterals(r), cfgs) })
 	}
-	if jx := <-jsxCh; doJSX {
-		runJSX(r, jx, cfgs)
+	if doJSX {
+		stage(func() { runJSX(r, genJSX(r), cfgs) })
 	}
+	var chainA, chainB []tlcJob
+	for _, j := range jobs {
+		if j.family == "expr" || j.family == "rand" {
+			chainA = append(chainA, j)
+		} else {
+			chainB = append(chainB, j)
+		}
+	}
+	for _, chain := range [][]tlcJob{chainA, chainB} {
+		chain := chain
+		if len(chain) == 0 {
+			continue
+		}
+		stage(func() {
+			trees := genTrees(r, chain, 2)
+			r.Logf("TLC exported %d tree cases (%s ...)", len(trees), chain[0].family)
+			runTrees(r, trees, cfgs)
+		})
+	}
+	wg.Wait()
+	flushCounts(r)
 }
